@@ -332,3 +332,13 @@ def check_C10():
                 "unchanged; sources of wrap/extract must stay untouched" % n,
                 "TLC enumerates the complete behaviour tree of Transform.tla and checks SecsNeverChange / RootsOnlyEqualLength / ExtractWrapIdentity / ErrLeavesFile",
                 assumptions=["wrapping a file that is not a CARv1 is outside the property"])
+
+
+def check_C20():
+    n = 5 if tier() == "quick" else 6
+    emit_family("C20", "MCDeferred", "Deferred_%d" % n, "deferred-replay",
+                "every history of %d operations over {OnPut(once), OnPut(always) (<= 3 registrations), Has x2, Put x3 (incl. a same-multihash and an identity block), Close} x 5 configurations "
+                "(path CARv2, path CARv1, stream, with/without StoreIdentityCIDs / AllowDuplicatePuts); after every step: result, the exact callback log (ids in registration order, sizes), "
+                "and the bytes on the stream / existence and bytes of the file are compared with the specification; at the end the output is compared with a directly constructed "
+                "storage.NewWritable given the same puts" % n,
+                "TLC enumerates the complete behaviour tree of Deferred.tla and checks Lazy / OnceFiresOnce / ClosedIsFinal / AppendOnly")
